@@ -29,10 +29,12 @@ enum Kind { kAsm = 0, kBuilder = 1, kCompiler = 2 };
 static const char* kind_name(int k) { return k < 0 ? "seal" : k == kAsm ? "asm" : k == kBuilder ? "builder" : "compiler"; }
 static int kind_of(const std::string& s) { return s == "asm" ? kAsm : s == "builder" ? kBuilder : kCompiler; }
 
-static const int NPROG = 8;
+static const int NPROG = 9;
 // minimal emitter kind each program needs (P1,P2,P7 any emitter; P3 builder-level node edits; P4..P6 compiler;
 // P8 = unfinished emission (cursor in the middle / open function, NO finalize): Builder or Compiler)
+// P9 = Compiler program with local AND global constants abandoned after end_func(), before finalize()
 static int prog_rank(int p) { return (p <= 2 || p == 7) ? kAsm : (p == 3 || p == 8) ? kBuilder : kCompiler; }
+static bool prog_finalizes(int p) { return p != 8 && p != 9; }
 
 struct ErrAcc {
   Error first = Error::kOk;
@@ -212,6 +214,9 @@ static void x86_func_spill(x86::Compiler& cc, unsigned k, ErrAcc& E, Label* self
   x86::Mem stk = cc.new_stack(64, 16, "stk");
   x86::Mem c0 = cc.new_int32_const(ConstPoolScope::kLocal, int32_t(1000 + k));
   x86::Mem c1 = cc.new_double_const(gscope, 1.5 + k);
+  uint8_t c16v[16]; for (int i = 0; i < 16; i++) c16v[i] = uint8_t(0x30 + i + k);
+  x86::Mem c2 = cc.new_const(gscope, c16v, 16);
+  x86::Vec f2 = cc.new_xmm("f2");
   for (unsigned i = 2; i < NV; i++) { E(cc.mov(v[i], v[i & 1])); E(cc.add(v[i], int(i * 3 + k))); }
   Label lp = cc.new_label();
   E(cc.bind(lp));
@@ -220,6 +225,8 @@ static void x86_func_spill(x86::Compiler& cc, unsigned k, ErrAcc& E, Label* self
   E(cc.mov(s0, v[3]));
   E(cc.add(v[0], c0));
   E(cc.movsd(f, c1));
+  E(cc.movaps(f2, c2));
+  E(cc.paddd(f2, f2));
   E(cc.cvttsd2si(v[4], f));
   InvokeNode* inv = nullptr;
   if (callee) E(cc.invoke(Out(inv), *callee, FuncSignature::build<uint32_t, uint32_t, uint32_t, void*>()));
@@ -430,6 +437,9 @@ static void a64_func_spill(a64::Compiler& cc, unsigned k, ErrAcc& E, Label* self
   a64::Mem c0 = cc.new_int32_const(ConstPoolScope::kLocal, int32_t(1000 + k));
   double dv = 1.5 + k;
   a64::Mem c1 = cc.new_const(gscope, &dv, 8);
+  uint8_t c16v[16]; for (int i = 0; i < 16; i++) c16v[i] = uint8_t(0x30 + i + k);
+  a64::Mem c2 = cc.new_const(gscope, c16v, 16);
+  a64::Vec f2 = cc.new_vec_q("f2");
   for (unsigned i = 2; i < NV; i++) { E(cc.add(v[i], v[i & 1], int(i * 3 + k))); }
   Label lp = cc.new_label();
   E(cc.bind(lp));
@@ -439,6 +449,8 @@ static void a64_func_spill(a64::Compiler& cc, unsigned k, ErrAcc& E, Label* self
   E(cc.ldr(t, c0));
   E(cc.add(v[0], v[0], t));
   E(cc.ldr(f, c1));
+  E(cc.ldr(f2, c2));
+  E(cc.add(f2.s4(), f2.s4(), f2.s4()));
   E(cc.fcvtzs(v[4], f));
   InvokeNode* inv = nullptr;
   if (callee) {
@@ -539,12 +551,80 @@ static void p7_stay(Arch arch, BaseEmitter* em, int kind, CodeHolder& code, unsi
     uint32_t vals[2] = {0x57A757A7u, k};
     E(em->embed_data_array(TypeId::kUInt32, vals, 2, 1));
   }
+  em->set_inline_comment("pending comment");     // per-instruction state left behind (only affects logging)
 }
 
-// P8: unfinished emission.  Builder: nodes + a label, cursor moved into the middle.  Compiler: an OPEN function (no
-// end_func) with virtual registers, a stack slot and a local constant.  Never finalized.
+// A pass a user added to a Builder/Compiler (never run by P8/P9 - the programs are abandoned before finalize)
+class NopPass : public Pass {
+public:
+  explicit NopPass(BaseBuilder& cb) noexcept : Pass(cb, "VerifNopPass") {}
+  Error run(Arena&, Logger*) override { return Error::kOk; }
+};
+
+// constants of several sizes in BOTH const-pool scopes + instructions that reference them (x86-64)
+static void x86_consts(x86::Compiler& cc, unsigned k, const x86::Gp& v0, ErrAcc& E) {
+  x86::Gp t = cc.new_gp32("ct"), t64 = cc.new_gp64("ct64");
+  x86::Vec x0 = cc.new_xmm("cx0"), y0 = cc.new_ymm("cy0");
+  uint8_t blob[32];
+  for (int i = 0; i < 32; i++) blob[i] = uint8_t(0x40 + i + k);
+  x86::Mem lb = cc.new_byte_const(ConstPoolScope::kLocal, uint8_t(0x11 + k));
+  x86::Mem lw = cc.new_word_const(ConstPoolScope::kLocal, uint16_t(0x2222 + k));
+  x86::Mem ld = cc.new_dword_const(ConstPoolScope::kLocal, 0x33333333u + k);
+  x86::Mem l16 = cc.new_const(ConstPoolScope::kLocal, blob, 16);
+  x86::Mem gq = cc.new_qword_const(ConstPoolScope::kGlobal, 0x4444444444444444ull + k);
+  x86::Mem gd = cc.new_dword_const(ConstPoolScope::kGlobal, 0x55555555u + k);
+  x86::Mem g16 = cc.new_const(ConstPoolScope::kGlobal, blob + 8, 16);
+  x86::Mem g32 = cc.new_const(ConstPoolScope::kGlobal, blob, 32);
+  E(cc.movzx(t, lb));
+  E(cc.add(v0, t));
+  E(cc.movzx(t, lw));
+  E(cc.add(v0, t));
+  E(cc.add(v0, ld));
+  E(cc.movaps(x0, l16));
+  E(cc.mov(t64, gq));
+  E(cc.add(v0, t64.r32()));
+  E(cc.xor_(v0, gd));
+  E(cc.paddd(x0, g16));
+  E(cc.vmovups(y0, g32));
+  E(cc.vpaddd(y0, y0, y0));
+}
+static void a64_consts(a64::Compiler& cc, unsigned k, const a64::Gp& v0, ErrAcc& E) {
+  a64::Gp t = cc.new_gp32("ct"), t64 = cc.new_gp64("ct64");
+  a64::Vec q0 = cc.new_vec_q("cq0"), q1 = cc.new_vec_q("cq1");
+  uint8_t blob[32];
+  for (int i = 0; i < 32; i++) blob[i] = uint8_t(0x40 + i + k);
+  (void)cc.new_byte_const(ConstPoolScope::kLocal, uint8_t(0x11 + k));
+  (void)cc.new_half_const(ConstPoolScope::kLocal, uint16_t(0x2222 + k));
+  a64::Mem ld = cc.new_word_const(ConstPoolScope::kLocal, 0x33333333u + k);
+  a64::Mem l16 = cc.new_const(ConstPoolScope::kLocal, blob, 16);
+  a64::Mem gq = cc.new_dword_const(ConstPoolScope::kGlobal, 0x4444444444444444ull + k);
+  a64::Mem gd = cc.new_word_const(ConstPoolScope::kGlobal, 0x55555555u + k);
+  a64::Mem g16 = cc.new_const(ConstPoolScope::kGlobal, blob + 8, 16);
+  (void)cc.new_const(ConstPoolScope::kGlobal, blob, 32);
+  E(cc.ldr(t, ld));
+  E(cc.add(v0, v0, t));
+  E(cc.ldr(q0, l16));
+  E(cc.ldr(t64, gq));
+  E(cc.add(v0, v0, t64.w()));
+  E(cc.ldr(t, gd));
+  E(cc.eor(v0, v0, t));
+  E(cc.ldr(q1, g16));
+  E(cc.add(q0.s4(), q0.s4(), q1.s4()));
+}
+
+// per-instruction state an emitter holds between calls (options / extra register / inline comment of the NEXT instruction)
+static void leave_pending(Arch arch, BaseEmitter* em) {
+  em->set_inline_comment("pending comment");
+  em->add_inst_options(InstOptions::kLongForm);
+  if (arch == Arch::kX64) em->set_extra_reg(x86::k1);
+}
+
+// P8: unfinished emission.  Builder: nodes + a label, a user section, an added pass, cursor moved into the middle,
+// pending instruction options.  Compiler: additionally an OPEN function (no end_func) with virtual registers, a stack
+// slot, a jump annotation and constants in the local AND the global pool.  Never finalized.
 static void p8_open(Arch arch, BaseEmitter* em, int kind, CodeHolder& code, unsigned k, ErrAcc& E) {
   BaseBuilder* b = static_cast<BaseBuilder*>(em);
+  E(b->add_pass<NopPass>());
   if (arch == Arch::kX64) {
     if (kind == kCompiler) {
       x86::Compiler& cc = *static_cast<x86::Compiler*>(em);
@@ -552,10 +632,12 @@ static void p8_open(Arch arch, BaseEmitter* em, int kind, CodeHolder& code, unsi
       if (!fn) { E(Error::kOutOfMemory); return; }
       x86::Gp v0 = cc.new_gp32("o0"), v1 = cc.new_gp32("o1");
       fn->set_arg(0, v0);
-      x86::Mem c0 = cc.new_int32_const(ConstPoolScope::kLocal, int32_t(80 + k));
       x86::Mem st = cc.new_stack(16, 4, "ost");
-      E(cc.mov(v1, c0));
-      E(cc.add(v0, v1));
+      x86_consts(cc, k, v0, E);
+      E(cc.mov(v1, v0));
+      JumpAnnotation* ann = cc.new_jump_annotation();
+      Label t0 = cc.new_label();
+      if (ann) E(ann->add_label(t0));
       (void)st;
     }
     x86::Emitter* x = em->as<x86::Emitter>();
@@ -564,6 +646,8 @@ static void p8_open(Arch arch, BaseEmitter* em, int kind, CodeHolder& code, unsi
     E(em->bind(l));
     E(x->dec(x86::ecx));
     E(x->jnz(l));
+    Section* user = get_or_new_section(code, ".open", 8, 4, E);
+    if (user) { E(em->section(user)); uint8_t d[4] = {1, 2, 3, uint8_t(k)}; E(em->embed(d, 4)); }
     b->set_cursor(mid);
   }
   else {
@@ -573,10 +657,12 @@ static void p8_open(Arch arch, BaseEmitter* em, int kind, CodeHolder& code, unsi
       if (!fn) { E(Error::kOutOfMemory); return; }
       a64::Gp v0 = cc.new_gp32("o0"), v1 = cc.new_gp32("o1");
       fn->set_arg(0, v0);
-      a64::Mem c0 = cc.new_int32_const(ConstPoolScope::kLocal, int32_t(80 + k));
       a64::Mem st = cc.new_stack(16, 4, "ost");
-      E(cc.ldr(v1, c0));
-      E(cc.add(v0, v0, v1));
+      a64_consts(cc, k, v0, E);
+      E(cc.mov(v1, v0));
+      JumpAnnotation* ann = cc.new_jump_annotation();
+      Label t0 = cc.new_label();
+      if (ann) E(ann->add_label(t0));
       (void)st;
     }
     a64::Emitter* a = em->as<a64::Emitter>();
@@ -585,9 +671,51 @@ static void p8_open(Arch arch, BaseEmitter* em, int kind, CodeHolder& code, unsi
     E(em->bind(l));
     E(a->subs(a64::w9, a64::w9, 1));
     E(a->b_ne(l));
+    Section* user = get_or_new_section(code, ".open", 8, 4, E);
+    if (user) { E(em->section(user)); uint8_t d[4] = {1, 2, 3, uint8_t(k)}; E(em->embed(d, 4)); }
     b->set_cursor(mid);
   }
-  (void)code;
+  leave_pending(arch, em);
+}
+
+// P9: a COMPLETE Compiler function (add_func .. end_func) using local and global constants of several sizes, followed
+// by more global constants created outside of any function - abandoned before finalize() (cancelled compilation): the
+// global ConstPoolNode is still pending in the Compiler when the holder is recycled.
+static void p9_abandon(Arch arch, BaseEmitter* em, CodeHolder&, unsigned k, ErrAcc& E) {
+  if (arch == Arch::kX64) {
+    x86::Compiler& cc = *static_cast<x86::Compiler*>(em);
+    FuncNode* fn = cc.add_func(FuncSignature::build<uint32_t, uint32_t, uint32_t>());
+    if (!fn) { E(Error::kOutOfMemory); return; }
+    x86::Gp a = cc.new_gp32("a9"), bb = cc.new_gp32("b9");
+    fn->set_arg(0, a);
+    fn->set_arg(1, bb);
+    x86_consts(cc, k, a, E);
+    E(cc.add(a, bb));
+    E(cc.ret(a));
+    E(cc.end_func());
+    x86::Mem late = cc.new_qword_const(ConstPoolScope::kGlobal, 0x9999000000000000ull + k);
+    (void)late;
+    Label tail = cc.new_label();
+    E(cc.bind(tail));
+    E(cc.embed_label(tail));
+  }
+  else {
+    a64::Compiler& cc = *static_cast<a64::Compiler*>(em);
+    FuncNode* fn = cc.add_func(FuncSignature::build<uint32_t, uint32_t, uint32_t>());
+    if (!fn) { E(Error::kOutOfMemory); return; }
+    a64::Gp a = cc.new_gp32("a9"), bb = cc.new_gp32("b9");
+    fn->set_arg(0, a);
+    fn->set_arg(1, bb);
+    a64_consts(cc, k, a, E);
+    E(cc.add(a, a, bb));
+    E(cc.ret(a));
+    E(cc.end_func());
+    a64::Mem late = cc.new_dword_const(ConstPoolScope::kGlobal, 0x9999000000000000ull + k);
+    (void)late;
+    Label tail = cc.new_label();
+    E(cc.bind(tail));
+    E(cc.embed_label(tail));
+  }
 }
 
 static void emit_program(Arch arch, BaseEmitter* em, int kind, CodeHolder& code, int prog, ErrAcc& E, int part = 0, Label* first = nullptr) {
@@ -596,6 +724,7 @@ static void emit_program(Arch arch, BaseEmitter* em, int kind, CodeHolder& code,
   if (!first) first = &first_local;
   if (prog == 7) { p7_stay(arch, em, kind, code, k, E); return; }
   if (prog == 8) { p8_open(arch, em, kind, code, k, E); return; }
+  if (prog == 9) { p9_abandon(arch, em, code, k, E); return; }
   if (arch == Arch::kX64) {
     switch (prog) {
       case 1: x86_p1(em, code, k, E); break;
@@ -625,7 +754,7 @@ static int g_last_err_idx = -1;
 static Error generate(Arch arch, BaseEmitter* em, int kind, CodeHolder& code, int prog) {
   ErrAcc E;
   emit_program(arch, em, kind, code, prog, E);
-  if (kind != kAsm && prog != 8) E(em->finalize());
+  if (kind != kAsm && prog_finalizes(prog)) E(em->finalize());
   g_last_err_idx = E.idx;
   return E.first;
 }
@@ -787,23 +916,31 @@ static BaseEmitter* new_emitter(Arch arch, int kind, bool validate) {
   return e;
 }
 
-// private containers of an emitter the API exposes (sizes only)
+// private state of an emitter the API exposes (sizes, flags, positions - never addresses or capacities)
+static void common_tail(BaseEmitter* e, std::vector<long long>& out) {
+  // pending per-instruction state, and what on_attach derives from the environment (must be gone after detach)
+  out.push_back((e->inst_options() != InstOptions::kNone ? 1 : 0) + (e->extra_reg().is_reg() ? 2 : 0) + (e->inline_comment() ? 4 : 0));
+  out.push_back((long long)e->_instruction_alignment);
+  out.push_back((long long)e->_private_data);
+  out.push_back(e->_gp_signature.bits() != 0 ? 1 : 0);
+}
 static void priv_of(BaseEmitter* e, int kind, std::vector<long long>& out) {
   if (kind == kAsm) {
     BaseAssembler* a = static_cast<BaseAssembler*>(e);
     out.push_back(a->_section ? (long long)a->_section->section_id() : -1);
     out.push_back(!a->code() && (a->_buffer_data || a->_buffer_ptr || a->_buffer_end) ? 1 : 0);   // stale pointers after detach
     out.push_back(a->code() ? (long long)a->offset() : 0);                                          // cursor (compared only while the holder is empty)
+    common_tail(e, out);
     return;
   }
   BaseBuilder* b = static_cast<BaseBuilder*>(e);
-  long long n = 0;
-  for (BaseNode* node = b->first_node(); node && n < 1000000; node = node->next()) n++;
+  long long n = 0, cur = b->cursor() ? -2 : 0;            // cursor: 0 = none, i = i-th node of the list, -2 = not a node of the list
+  for (BaseNode* node = b->first_node(); node && n < 1000000; node = node->next()) { n++; if (node == b->cursor()) cur = n; }
   out.push_back(n);
   out.push_back((long long)b->label_nodes().size());
   out.push_back((long long)b->section_nodes().size());
   out.push_back((long long)b->passes().size());
-  out.push_back(b->cursor() ? 1 : 0);
+  out.push_back(cur);
   if (kind == kCompiler) {
     BaseCompiler* c = static_cast<BaseCompiler*>(e);
     out.push_back((long long)c->virt_regs().size());
@@ -811,6 +948,8 @@ static void priv_of(BaseEmitter* e, int kind, std::vector<long long>& out) {
     out.push_back((long long)c->jump_annotations().size());
     out.push_back((c->_const_pools[0] ? 1 : 0) + (c->_const_pools[1] ? 2 : 0));
   }
+  out.push_back(b->has_dirty_section_links() ? 1 : 0);
+  common_tail(e, out);
 }
 
 // counts of a holder the API exposes
@@ -1216,9 +1355,10 @@ struct RandDriver {
 // The child appends to the shared trace file and counts started executions in shared memory; when it does not exit
 // cleanly the parent writes the ABORT line for the execution that was running and resumes with the next one.
 #include <sys/wait.h>
+#include <signal.h>
 #include <sys/mman.h>
 template<typename F>
-static void isolated(FILE* out, size_t n, size_t batch, F&& body) {
+static void isolated(FILE* out, size_t n, size_t batch, unsigned limit_s, F&& body) {
   volatile size_t* started = (volatile size_t*)mmap(nullptr, 4096, PROT_READ | PROT_WRITE, MAP_SHARED | MAP_ANONYMOUS, -1, 0);
   size_t i = 0;
   while (i < n) {
@@ -1227,7 +1367,8 @@ static void isolated(FILE* out, size_t n, size_t batch, F&& body) {
     fflush(out);
     pid_t pid = fork();
     if (pid == 0) {
-      for (size_t k = i; k < end; k++) { *started = k + 1; body(k); }
+      for (size_t k = i; k < end; k++) { *started = k + 1; alarm(limit_s); body(k); }   // a history that never returns is killed (SIGALRM)
+      alarm(0);
       fflush(out);
       exit(0);          // runs the leak check of the sanitizer build
     }
@@ -1235,7 +1376,7 @@ static void isolated(FILE* out, size_t n, size_t batch, F&& body) {
     waitpid(pid, &st, 0);
     if (WIFEXITED(st) && WEXITSTATUS(st) == 0) { i = end; continue; }
     fseek(out, 0, SEEK_END);
-    if (WIFSIGNALED(st)) fprintf(out, "\n{\"e\":\"ABORT\",\"why\":\"signal %d\"}\n", WTERMSIG(st));
+    if (WIFSIGNALED(st)) fprintf(out, "\n{\"e\":\"ABORT\",\"why\":\"signal %d%s\"}\n", WTERMSIG(st), WTERMSIG(st) == SIGALRM ? " (history did not return within the time limit)" : "");
     else fprintf(out, "\n{\"e\":\"ABORT\",\"why\":\"exit code %d%s\"}\n", WEXITSTATUS(st), WEXITSTATUS(st) == 66 ? " (sanitizer report)" : "");
     fflush(out);
     size_t st_ = *started;
@@ -1252,7 +1393,7 @@ int main(int argc, char** argv) {
     if (!out) { perror(argv[3]); return 3; }
     if (ftruncate(fileno(out), 0) != 0) return 3;
     vj::install_abort_handlers(out);
-    isolated(out, scripts.size(), 40, [&](size_t k) {
+    isolated(out, scripts.size(), 40, 20, [&](size_t k) {
       auto& s = scripts[k];
       Exec ex(out, cfg_of(s["cfg"]), vj::env_seed() * 1000003ull + k);
       for (auto& op : s["ops"].arr) ex.run_op(op);
@@ -1266,7 +1407,7 @@ int main(int argc, char** argv) {
     if (ftruncate(fileno(out), 0) != 0) return 3;
     vj::install_abort_handlers(out);
     unsigned nexec = unsigned(atoi(argv[3])), nact = unsigned(atoi(argv[4]));
-    isolated(out, nexec, 1, [&](size_t i) {
+    isolated(out, nexec, 1, 900, [&](size_t i) {
       vj::Rng r(vj::env_seed() * 7919ull + i);
       Cfg c;
       c.arch = r.chance(1, 3) ? Arch::kAArch64 : Arch::kX64;
